@@ -39,12 +39,15 @@ Builds ==
 RECURSIVE RunAll(_, _, _)
 RunAll(T, ops, i) == IF i > Len(ops) THEN T ELSE RunAll(Apply(T, ops[i]).st, ops, i + 1)
 
-Init == \E b \in Builds : path = b /\ st = RunAll(Empty, b, 1) /\ lastop = [op |-> "Init"] /\ chg = FALSE
-Next == \E o \in {[op |-> "Collect"], [op |-> "CollectASM"], [op |-> "Tally"]} :
+\* the same slices BEFORE validate() was ever run (the accounting summary from the serialised model validates by itself)
+Unvalidated == {SubSeq(b, 1, Len(b) - 1) : b \in Builds}
+Init == \E b \in Builds \cup Unvalidated : path = b /\ st = RunAll(Empty, b, 1) /\ lastop = [op |-> "Init"] /\ chg = FALSE
+Next == \E o \in (IF path \in Builds THEN {[op |-> "Collect"], [op |-> "CollectASM"], [op |-> "Tally"], [op |-> "TallyASM"]}
+                  ELSE {[op |-> "Tally"], [op |-> "TallyASM"]}) :
           LET r == Apply(st, o) IN st' = r.st /\ lastop' = o /\ chg' = (r.st # st) /\ path' = path
 Spec == Init /\ [][Next]_vars
 View == <<st, path>>
 LogStep == PrintT(ToJson([path |-> path, op |-> lastop', chg |-> chg']))
 \* every build of the family is a valid slice (otherwise the collectors would not be reached)
-BuildsValid == Valid(st)
+BuildsValid == path \in Builds => Valid(st)
 =============================================================================
